@@ -495,15 +495,17 @@ impl<T: GcManaged> GcManaged for Vec<T> {
     }
 }
 
-impl<K, V: GcManaged, S> GcManaged for HashMap<K, V, S> {
+impl<K: GcManaged, V: GcManaged, S> GcManaged for HashMap<K, V, S> {
     fn mark(&self) {
-        for v in self.values() {
+        for (k, v) in self.iter() {
+            k.mark();
             v.mark();
         }
     }
 
     fn blacken(&self) {
-        for v in self.values() {
+        for (k, v) in self.iter() {
+            k.blacken();
             v.blacken();
         }
     }
